@@ -171,6 +171,6 @@ func driveC01(c *h.Ctx) error {
 	fmt.Fprintf(&sb, "Definition mism_same := Eval vm_compute in bad_idx row_msg_same %s 0.\nPrint mism_same.\n", e1)
 	fmt.Fprintf(&sb, "Definition mism_msg := Eval vm_compute in bad_idx row_msg %s 0.\nPrint mism_msg.\n", e2)
 	// the hypotheses of the round-trip theorem are met by the generated messages (non-vacuity at scale)
-	fmt.Fprintf(&sb, "Definition mism_conf := Eval vm_compute in bad_idx row_conf_header %s 0.\nPrint mism_conf.\n", e1)
+	fmt.Fprintf(&sb, "Definition mism_conf := Eval vm_compute in bad_idx row_conf %s 0.\nPrint mism_conf.\n", e1)
 	return c.WriteCases("cases_C01.v", sb.String(), len(rows)+2*len(rowsSame))
 }
